@@ -99,23 +99,26 @@ EXCLS = [
 class C16(Prop):
     id = 'C16'
     props_modules = ['CylcModel.Props.C16']
-    theorems = ['CylcModel.C16.oneoff_outside_counterexample']
-    theorems_todo = [
+    theorems = [
         'CylcModel.C16.points_spec_partial',
         'CylcModel.C16.points_spec_stepped',
-        'CylcModel.C16.build_error_iff',
-        'CylcModel.C16.excluded_spec',
+        'CylcModel.C16.built_wellformed',
         'CylcModel.C16.next_spec',
         'CylcModel.C16.prev_spec',
         'CylcModel.C16.first_spec',
         'CylcModel.C16.start_stop_spec',
         'CylcModel.C16.oneoff_outside_counterexample',
     ]
+    technique = 'Lean 4 theorems (alignment arithmetic, case analysis over the 11 recurrence forms) over an executable port of IntegerSequence + exhaustive-box correspondence'
     statement_note = (
-        'partial: membership = clipped progression minus exclusions for every stepped form and context '
-        '(unbounded integers); one-off forms: the point is valid even outside [icp,fcp] (known finding, '
-        'counterexample theorem); next/prev/first/start/stop characterised for exclusion-free sequences on the '
-        'documented domains; queries with exclusions are tied by correspondence and judged, not proved')
+        'partial proof. Proved for all forms, contexts, exclusion lists and unbounded integers: is_valid = '
+        'progression the form denotes, clipped to [icp,fcp], minus exclusions (points_spec_stepped; for one-off '
+        'forms only when the point lies inside the context - the code reports it valid outside, a known finding '
+        'with a counterexample theorem; points_spec_partial is the exact reading of the code). For exclusion-free '
+        'stepped sequences: next (p >= start-step), prev (p <= stop+step), first (any p), start, stop are the '
+        'least/greatest members (next_spec, prev_spec, first_spec, start_stop_spec). Not proved (tied by '
+        'correspondence and judged only): the queries in the presence of exclusions, nearest_prev, which '
+        'constructor inputs are errors')
     trusted = [
         'regex matching of the recurrence text (RECURRENCE_FORMAT_RECS) is not modelled: Form.toParsed states '
         'which groups each form yields, tied by correspondence over every textual variant',
